@@ -71,6 +71,7 @@ def explore_c15(rng, tier, res, deep=False):
 
     low = Low()
     seen_valid = []
+    carry = None
     for i in range(n):
         doc = doc_with_all_kinds(rng, rng.choice([2, 3]))
         q = walk_query(rng, doc, g, filters=True) if i % 2 else g.query()
@@ -102,6 +103,14 @@ def explore_c15(rng, tier, res, deep=False):
             q = gen.mutate(rng, q)
         elif k < 0.3:
             q = rng.choice(["$[?nope(@)]", "$[9007199254740992]", "$[?count(@.a)]", "$[?length(@.*)==1]", "$[", "$.a b", "$[?@.a==01]"])
+        # now and then: the previous query again, its compiled objects kept, on the previous value edited in place
+        # (the same Python object): what a compiled query remembers about a value must not make query.find
+        # disagree with the entry points that compile afresh
+        reuse = None
+        if carry is not None and rng.random() < 0.25 and isinstance(carry[1], (dict, list)):
+            q, doc, reuse = carry
+            edit_in_place(rng, doc)
+        kept = {}
         res.evaluations += 1
         for e, is_default in ((env, True), (low, False)):
             paths = {}
@@ -114,11 +123,14 @@ def explore_c15(rng, tier, res, deep=False):
             paths["env.finditer"] = outcome(lambda: drain(e.finditer(q, doc)))
             paths["env.find_one"] = outcome(lambda: e.find_one(q, doc))
             c = outcome(lambda: e.compile(q))
+            if reuse is not None and id(e) in reuse and not isinstance(c, str):
+                c = reuse[id(e)]
             if isinstance(c, str):
                 paths["env.compile"] = c
                 for nm in ("query.find", "query.apply", "query.finditer", "query.find_one"):
                     paths[nm] = c
             else:
+                kept[id(e)] = c
                 if is_default and len(seen_valid) < 200 and q == q.strip():
                     seen_valid.append(q)
                 paths["env.compile"] = "compiled"
@@ -161,7 +173,9 @@ def explore_c15(rng, tier, res, deep=False):
             res.count("paths-compared", len(paths))
             for nm, o, w in problems[:1]:
                 res.violations.append({"property": "C15", "query": q, "document": doc, "observed": {nm: str(o)[:200]},
-                                       "expected": str(w)[:200], "what": f"entry point {nm} disagrees"})
+                                       "expected": str(w)[:200], "what": f"entry point {nm} disagrees"
+                                       + (" (compiled query objects kept from an earlier application to the same container object, since edited in place)" if reuse else "")})
+        carry = (q, doc, kept) if kept else None
         res.sample({"query": q})
 
 
@@ -496,8 +510,16 @@ def thread_stress(rng, tier, res):
 
     env = jp.JSONPathEnvironment()
     docs = [doc_with_all_kinds(rng, 3) for _ in range(4)]
-    qs = ["$..*", "$[?@..*]", "$..[?@.a]", "$[?count(@.*) > 1]", "$..[::-1]", "$[?@[?@ == 1]]"]
+    # strings for match()/search() with several patterns in play at once (short ones and long ones that take a while to
+    # translate and compile, patterns taken from the document): anything the regex functions keep between calls
+    long_pat = "." * 600 + "-k"
+    docs.append({"pat": long_pat, "p2": "a.*", "items": ["x" * 600 + "-k", "abc", "nope", "a", "ab-k", "b" * 602]})
+    docs.append(["abc", "abd", "b", "", "a", {"a": "abc"}, {"a": "b"}, "nope"])
+    qs = ["$..*", "$[?@..*]", "$..[?@.a]", "$[?count(@.*) > 1]", "$..[::-1]", "$[?@[?@ == 1]]",
+          "$..[?match(@, 'a.*')]", "$..[?match(@, 'nope')]", "$..[?search(@, 'b')]", "$..[?search(@, 'c|d')]",
+          "$.items[?match(@, $.pat)]", "$.items[?match(@, $.p2)]", "$..[?match(@.a, 'a[a-c]+')]", "$..[?search(@.a, '[a-b]$')]"]
     shared = [env.compile(q) for q in qs]
+    others = [jp.JSONPathEnvironment().compile(q) for q in qs]
     want = {(i, j): enc_list(shared[i].find(docs[j])) for i in range(len(qs)) for j in range(len(docs))}
     errors = []
     old = sys.getswitchinterval()
@@ -510,8 +532,11 @@ def thread_stress(rng, tier, res):
             for _ in range(150 if tier != "thorough" else 1500):
                 i, j = r.randrange(len(qs)), r.randrange(len(docs))
                 try:
-                    if r.random() < 0.5:
+                    k = r.random()
+                    if k < 0.4:
                         got = enc_list(shared[i].find(docs[j]))
+                    elif k < 0.6:
+                        got = enc_list(others[i].find(docs[j]))  # a compiled query of another environment
                     else:
                         got = enc_list(env.find(qs[i], docs[j]))  # compile + evaluate concurrently on the shared env
                     if got != want[(i, j)]:
